@@ -272,6 +272,27 @@ def hydrogen_bookkeeping(m0, hseed, rec):
             if not rederive(t, rec, f'{label} after add_bond({x},{y}) + delete_bond({p},{q}) in one transaction', 'transaction-h'):
                 return
             rec.count('hydrogens:transactions')
+    # normalisation with every option combination that hands back a Kekule structure: each stored count must be a state of the
+    # element tables for the bonds and charge the atom ends up with
+    for ft in (False, True):
+        c = m0.copy()
+        try:
+            c.canonicalize(fix_tautomers=ft, keep_kekule=True)
+        except Exception:
+            rec.count('hydrogens:canonicalize-refused')
+            continue
+        if any(b.order == 4 for *_, b in c.bonds()):
+            continue
+        if c.check_valence() or any(a.implicit_hydrogens is None for _, a in c.atoms()):
+            rec.count('hydrogens:canonicalize reports an invalid result itself (C14 matter)')
+            continue
+        for n, a in c.atoms():
+            if a.implicit_hydrogens not in valence_ref.implicit_h_all(a, valence_ref.atom_neighbours(c, n)):
+                rec.fail('canonicalize-h', f'{label}: canonicalize(fix_tautomers={ft}, keep_kekule=True) gives {str(c)!r}: atom {n} '
+                                           f'({a.atomic_symbol}, charge {a.charge}) stores {a.implicit_hydrogens} hydrogens, not a state of '
+                                           f'the element tables for its bonds', sig=f'ft={ft}')
+                return
+        rec.count('hydrogens:canonicalize-kekule')
     total = sum(a.implicit_hydrogens + (a.atomic_number == 1) for _, a in m.atoms())
     brutto = dict(m.brutto)
     if added:
